@@ -193,6 +193,7 @@ def run(prog, rep, tier, repo):
                 rep.viol('rng-discipline', key, 'sample() never draws from the RNG', site_of(pdb.bodies[sk]))
             else:
                 rep.ok('rng-discipline', key, '%d bodies reachable; RNG sources: %s' % (len(clo), rng))
+    check_literals(prog, rep, 'literal-coherent')
     key = 'observers:no-statics'
     if pdb.statics:
         rep.viol('observers', key, 'the crate defines statics: %s' % sorted(pdb.statics))
@@ -279,3 +280,75 @@ def _check_update(prog, rep, sm, om, uf, param_fields, derived):
         rep.ok('update', key, 'update() stores %s, every other field as new() would, under the guards of new(): {%s}' % (
             ', '.join('%s := %s' % (sm.fname(fi), show(eff.state[fi])[:30]) for fi in param_fields),
             '; '.join(sorted(show_guard(g) for g in got)) or 'none'))
+
+
+def check_literals(prog, rep, rule, scope='distributions::'):
+    """every struct literal of a distribution with derived fields, written anywhere outside its constructor (`Gamma { alpha: a + 1., ..*self }`
+    in a sampler, say), is what new() would build from the literal's own parameters: a derived field is either the constructor's
+    initialiser over those parameters, or copied from an object all of whose parameters it depends on are copied with it.  A derived
+    field copied from `self` beside a changed parameter is stale.  Returns the number of literals examined."""
+    pdb = prog.pdb
+    models = {}
+    for d in DISTS:
+        path = 'distributions::' + d
+        if path not in pdb.adts:
+            continue
+        sm = StructModel(prog, path)
+        if sm.new is None or sm.inits is None:
+            continue
+        param_fields = dict(sm.param_of)
+        derived = {}
+        for i, t in sm.inits.items():
+            if i in param_fields:
+                continue
+            deps = {fi for fi, al in param_fields.items() if mentions(t, sm.new_arg(al))}
+            if deps:
+                derived[i] = deps
+        if derived:
+            models[path] = (sm, ObjModel(prog, sm), param_fields, derived)
+    n = 0
+    for k, b in sorted(pdb.bodies.items()):
+        if not (k.startswith(scope) or k.startswith('<' + scope)):
+            continue
+        f = prog.func(k)
+        if f is None:
+            continue
+        pool = [st.value for st in f.stores()] + [a for c in f.calls() for a in c.args] + list(f.return_values())
+        seen = set()
+        for t in pool:
+            for z in subterms(t):
+                if not (tag(z) == 'agg' and z[1] == 'adt' and z[2] in models) or z in seen:
+                    continue
+                seen.add(z)
+                sm, om, param_fields, derived = models[z[2]]
+                if k == z[2] + '::new':
+                    continue
+                comps = z[3]
+                if len(comps) != sm.nfields:
+                    continue
+                n += 1
+                rep.touch(k)
+                mapping = {sm.new_arg(al): comps[fi] for fi, al in param_fields.items()}
+                for j, deps in sorted(derived.items()):
+                    key = '%s:%s:%s.%s' % (rule, short(k), short(z[2]), sm.fname(j))
+                    want = om.clean(om.norm(subst(sm.inits[j], mapping)))
+                    got = om.clean(om.norm(comps[j]))
+                    if got == want:
+                        rep.ok(rule, key, '`%s` built as new() builds it' % sm.fname(j))
+                        continue
+                    cj = comps[j]
+                    if tag(cj) == 'field' and cj[2] == j:
+                        src = cj[1]
+                        changed = [fi for fi in deps if not (tag(comps[fi]) == 'field' and comps[fi][1] == src and comps[fi][2] == fi)]
+                        if not changed:
+                            rep.ok(rule, key, '`%s` copied together with the parameters it is derived from' % sm.fname(j))
+                        else:
+                            rep.viol(rule, key, '%s builds a %s with %s = %s but copies the derived field `%s` from %s, where new() computes it as %s from that '
+                                     'parameter: the object carries the constants of the old parameter' % (
+                                         short(k), short(z[2]), sm.fname(changed[0]), show(comps[changed[0]])[:40], sm.fname(j), show(src)[:20], show(sm.inits[j])[:60]),
+                                     site_of(f.body))
+                    else:
+                        rep.undecided(rule, key, 'derived field `%s` = %s is neither the constructor\'s initialiser nor a copy' % (sm.fname(j), show(cj)[:50]),
+                                      site_of(f.body), proof=False)
+    rep.ok(rule, '%s:scan' % rule, '%d struct literals of distributions with derived fields outside their constructors' % n)
+    return n
